@@ -34,7 +34,9 @@ Definition dir_index (P : list N) : sres (list N) :=
   | c :: _ => SOk (if N.eqb c 47 then INDEX_HTML else 47 :: INDEX_HTML)
   end.
 
-(* optional containment guard (the candidate repair): refuse lexically climbing paths *)
+(* URL::has_parent_directory_segment (fix b366efe): some segment, splitting at '/' and at '\', is ".." *)
+Definition has_dotdot (P : list N) : bool := existsb is_dotdot (flat_map (fun c => split c [92]) (comps P)).
+(* lexical climbing (used by the containment proof): some prefix has more ".." than names *)
 Fixpoint climbs_aux (depth : nat) (cs : list (list N)) : bool :=
   match cs with
   | [] => false
@@ -44,13 +46,10 @@ Fixpoint climbs_aux (depth : nat) (cs : list (list N)) : bool :=
   end.
 Definition climbs (P : list N) : bool := climbs_aux 0 (comps P).
 
-Section WithGuard.
-Variable guard : bool.      (* false = pinned code *)
-
+Definition HEAD : list N := [72;69;65;68].
 Definition is_matching (fs : fsys) (r : request) : sres bool :=
-  if negb (beqs (method r) GET) then SOk false else
   match path_or_panic (uri r) with SErr s => SErr s | SPanic s => SPanic s | SOk P =>
-  if guard && climbs P then SOk false else
+  if has_dotdot P then SOk false else
   let SP := cwd_str fs ++ P in
   match (match metadata fs SP with
          | Some KDir => match dir_index P with
@@ -61,7 +60,7 @@ Definition is_matching (fs : fsys) (r : request) : sres bool :=
   | SOk (Some false) => SOk false                               (* directory without index.html *)
   | SOk didx =>
     let dir_idx := match didx with Some true => true | _ => false end in
-    let mm := negb (beqs (uri r) [47]) in
+    let mm := (beqs (method r) GET || beqs (method r) HEAD || beqs (method r) OPTIONS) && negb (beqs (uri r) [47]) in
     if can_open fs SP || dir_idx then SOk mm
     else if ends_with SP DOT_HTML then SOk false
     else SOk (can_open fs (cwd_str fs ++ P ++ DOT_HTML) && mm)
@@ -109,7 +108,7 @@ Definition parse_content_range (fs : fsys) (lnk : bool) (path : list N) (L : N) 
 
 Definition get_content_range_list (fs : fsys) (uri' : list N) (range_value : list N) : sres (list crange) :=
   match path_or_panic uri' with SErr s => SErr s | SPanic s => SPanic s | SOk P =>
-  if guard && climbs P then SErr 500 else
+  if has_dotdot P then SErr 404 else
   let SP := cwd_str fs ++ P in
   match metadata fs SP with
   | None => SErr 500
@@ -153,7 +152,6 @@ Definition process_static (fs : fsys) (r : request) : sres (list crange) :=
         match metadata fs SP2 with Some KFile => get_content_range_list fs (P ++ DOT_HTML) rv | _ => SOk [] end
       else SOk []
   end end.
-End WithGuard.
 
 Fixpoint prefixb_names (a b' : list (list N)) : bool :=
   match a, b' with [], _ => true | x :: a', y :: b'' => beqs x y && prefixb_names a' b'' | _, [] => false end.
@@ -163,32 +161,20 @@ Definition served_outside (fs : fsys) (l : list crange) : bool :=
                     | FromFile q via => negb via && negb (prefixb_names (cwd fs) q)
                     | _ => false end) l.
 
-(* ---- C01 on the pinned code: refuted, by computation ---- *)
+(* ---- observed behaviours, by computation ---- *)
 Definition GET_req (u : list N) (hs : list header) := mkR GET u [72;84;84;80;47;49;46;49] hs [].
 Definition escape_uri : list N := [47;46;46;47;115;101;99;114;101;116;46;116;120;116].   (* /../secret.txt *)
-Example C01_refuted :
-  is_matching false fs0 (GET_req escape_uri []) = SOk true /\
-  exists l, process_static false fs0 (GET_req escape_uri []) = SOk l /\ served_outside fs0 l = true
-            /\ map c_body l = [[83;69;67]].
-Proof. split; [vm_compute; reflexivity|]. eexists. split; [vm_compute; reflexivity|]. split; vm_compute; reflexivity. Qed.
-(* with the guard the same request is not served *)
-Example C01_guarded_witness :
-  is_matching true fs0 (GET_req escape_uri []) = SOk false.
+(* the pinned tree served /../secret.txt (C01 finding, fixed by b366efe); now it is not matched *)
+Example C01_escape_refused : is_matching fs0 (GET_req escape_uri []) = SOk false.
 Proof. vm_compute. reflexivity. Qed.
-(* in-root ".." keeps working under the guard *)
-Example inroot_dotdot :
-  exists l, process_static true fs0 (GET_req [47;115;117;98;47;46;46;47;97;46;116;120;116] []) = SOk l
-            /\ map c_body l = [[48;49;50;51;52;53;54;55;56;57]] /\ served_outside fs0 l = false.
-Proof. eexists. split; [vm_compute; reflexivity|]. split; vm_compute; reflexivity. Qed.
+Example C01_escape_refused_reader : get_content_range_list fs0 escape_uri DEFAULT_RANGE = SErr 404.
+Proof. vm_compute. reflexivity. Qed.
 (* observed: Range: bytes=-3 on the 10-byte file is labelled 7-10 *)
 Example range_suffix :
-  exists l, process_static false fs0 (GET_req [47;97;46;116;120;116] [mkH RANGE_NAME (BYTES_EQ ++ [45;51])]) = SOk l
+  exists l, process_static fs0 (GET_req [47;97;46;116;120;116] [mkH RANGE_NAME (BYTES_EQ ++ [45;51])]) = SOk l
             /\ map (fun c => (c_start c, c_end c, c_size c, c_body c)) l = [(7, 10, 10, [55;56;57])].
 Proof. eexists. split; vm_compute; reflexivity. Qed.
-(* observed: "GET x" panics in is_matching *)
-Example get_x_panics : is_matching false fs0 (GET_req [120] []) = SPanic SLastChar.
-Proof. vm_compute. reflexivity. Qed.
 (* observed: symlinked file is served, provenance says via link *)
 Example symlink_served :
-  exists l, process_static false fs0 (GET_req [47;108;97] []) = SOk l /\ map c_body l = [[48;49;50;51;52;53;54;55;56;57]].
+  exists l, process_static fs0 (GET_req [47;108;97] []) = SOk l /\ map c_body l = [[48;49;50;51;52;53;54;55;56;57]].
 Proof. eexists. split; vm_compute; reflexivity. Qed.
